@@ -6,6 +6,7 @@ import (
 	"math/rand"
 	"reflect"
 	"strings"
+	"sync/atomic"
 
 	"github.com/biogo/biogo/alphabet"
 	"github.com/biogo/biogo/feat"
@@ -167,6 +168,10 @@ func c04ReadFeatures(rng *rand.Rand, kind string, data []byte, max int) ([]inter
 
 func c04Case(r *obs.Run, i int) {
 	rng := r.Rng
+	roomyBefore := atomic.LoadInt64(&ioRoomyTemplates)
+	defer func() {
+		r.Count("reader_templates_with_spare_capacity", atomic.LoadInt64(&ioRoomyTemplates)-roomyBefore)
+	}()
 	w := map[string]interface{}{}
 	fail := func(class, what string) {
 		w["what"] = what
